@@ -32,10 +32,12 @@ class Gen:
         self.cases = []
         self.n = 0
 
-    def case(self, suite, cfg, lines, ns=1, nsess=1):
+    def case(self, suite, cfg, lines, ns=1, nsess=1, srv=0, trig=5000):
         self.n += 1
         hdr = 'X id=%d ato=%d rf=%d mr=%d ns=%d nsess=%d tol=%d until=%d' % (
             self.n, cfg['ato'], cfg['rf'], cfg['mr'], ns, nsess, cfg['tol'], until(cfg))
+        if srv:
+            hdr += ' srv=1 trig=%d' % trig
         self.cases.append((self.n, suite, [hdr] + lines + ['E']))
 
 
@@ -181,6 +183,31 @@ def suite_exch(g, tier, rnd):
             g.case('exch.twosessions', cfg, ls, nsess=2)
 
 
+def suite_async(g, tier, rnd):
+    """C07 with a real libcoap server as the peer: answers at once (r), deferred until the server application releases them (w),
+    deferred by a timed async entry (v).  Single faults on every datagram of the exchange, in both directions; all delays < ACK_TIMEOUT."""
+    cfg = dict(ato=2000, rf=1500, mr=3, tol=16)
+    for path in 'rwv':
+        for ty in ('CON', 'NON'):
+            for trig in ((300, 5000) if path != 'r' else (0,)):
+                base = ['A 0 0 %s 33 p=%s' % (ty, path), 'N 100 0 %s 34 p=r' % ty]
+                faults = [[]]
+                for j in range(0, 4):
+                    faults += [['L %d' % j], ['D %d 5 900' % j], ['D %d 0 0' % j], ['Y %d 1500' % j],
+                               ['LS %d' % j], ['DS %d 5 900' % j], ['DS %d 0 1900' % j], ['YS %d 1500' % j]]
+                if tier != 'quick':
+                    faults += [a + b for a in faults[1:] for b in faults[1:] if a[0].split()[0] != b[0].split()[0] or a[0].split()[1] != b[0].split()[1]]
+                else:
+                    faults += [['L 0', 'LS 0'], ['D 0 5 900', 'LS 0'], ['D 0 5 900', 'DS 1 5 900'], ['LS 0', 'LS 1'], ['L 0', 'D 1 3 700']]
+                for f in faults:
+                    g.case('exch.async', cfg, base + f, srv=1, trig=trig)
+    # two deferred answers pending at once on two sessions, repeats of both requests in between
+    for trig in (300, 5000):
+        for f in ([], ['D 0 5 900'], ['D 1 5 900', 'LS 0'], ['LS 1', 'D 0 10 20']):
+            g.case('exch.async', cfg, ['A 0 0 CON 33 p=w', 'A 10 1 CON 35 p=v', 'N 50 0 CON 34 p=r', 'N 50 1 NON 36 p=w'] + f,
+                   nsess=2, srv=1, trig=trig)
+
+
 def suite_nstart(g, tier, rnd):
     """C08: bursts, NSTART, held FIFO, acks/resets in every order, peer resetting every copy it received."""
     cfg = dict(ato=2000, rf=1000, mr=1, tol=16)
@@ -289,6 +316,7 @@ def run(pid, tier):
     g = Gen()
     suite_rel(g, tier, rnd)
     suite_exch(g, tier, rnd)
+    suite_async(g, tier, rnd)
     suite_nstart(g, tier, rnd)
     suite_random(g, tier, rnd, 1500 if tier == 'quick' else 60000)
     nchunk = V.NCPU
